@@ -24,15 +24,29 @@ def isSafeElem (cfg : Cfg) (tag : QName) (attrs : AttrList) : Bool :=
   cfg.safeTags.contains tag.text &&
     !(tag.loc == inputWord && pyLower (attrGet attrs typeWord) == passwordWord)
 
+def stripRefsFix : Nat → Str → Except Err Str
+  | 0, s => .ok s
+  | f + 1, s => do
+    let t ← stripentities s
+    if t = s then pure s else stripRefsFix f t
+
+/-- `decoded = stripentities(value); while decoded != value: …`: references are decoded until
+    none is left (every round that changes the text shortens it) -/
+def stripRefs (s : Str) : Except Err Str := stripRefsFix (s.length + 1) s
+
 /-- the body of the attribute loop: `none` = `continue` -/
 def sanAttr (cfg : Cfg) (a : QName × Str) : Except Err (Option (QName × Str)) := do
-  let v ← stripentities a.2
+  let v ← stripRefs a.2
   if !cfg.safeAttrs.contains a.1.text then pure none
   else if cfg.uriAttrs.contains a.1.text then
     pure (if isSafeUri cfg v then some (a.1, v) else none)
   else if a.1.text == styleWord then do
     let decls ← sanitizeCss cfg v
-    pure (if decls.isEmpty then none else some (a.1, Genshi.Str.join declSep decls))
+    if decls.isEmpty then pure none
+    else do
+      -- `if stripentities(value) != value: continue`
+      let back ← stripentities (Genshi.Str.join declSep decls)
+      pure (if back = Genshi.Str.join declSep decls then some (a.1, Genshi.Str.join declSep decls) else none)
   else pure (some (a.1, v))
 
 def sanAttrs (cfg : Cfg) : AttrList → Except Err AttrList
@@ -68,6 +82,10 @@ def step (cfg : Cfg) (st : St) : Event → Except Err (St × Stream)
       else pure (st, [])
     | none => pure (st, [.end_ tag])
   | .comment _ => pure (st, [])
+  | .pi target data =>
+    -- `kind is PI and ('>' in data[0] or '>' in data[1])`: dropped
+    if List.contains target '>' || List.contains data '>' then pure (st, [])
+    else pure (st, if st.waiting.isNone then [.pi target data] else [])
   | e => pure (st, if st.waiting.isNone then [e] else [])
 
 def sanitizeFrom (cfg : Cfg) : St → Stream → Except Err Stream
